@@ -228,3 +228,55 @@ func c08Redis(c *Ctx) {
 	}
 	c.Ev.Sample(map[string]any{"part": "redis", "keys": len(keys), "redis_gets": rs.Gets.Load(), "redis_hits": rs.Hits.Load(), "redis_sets": rs.Sets.Load()})
 }
+
+// c08Stall: a cache hit that is held up inside the lookup. Every successful look-up of the memory
+// cache sleeps for 2.3 s (delay point memcache.get, between finding the entry and copying it out).
+// The TTLs of the answer count from the fetch to the moment the answer is put together, which is
+// after that stall: upstream TTL minus the whole seconds between the first answer's arrival at the
+// client and (the second query's departure + 2.3 s) bounds them - client-side times only.
+func c08Stall(c *Ctx) {
+	b, err := NewBed(c, "stall", BedOpts{Upstreams: []string{"pipe"}, MemSize: 4 << 20, Listeners: []string{"udp", "tcp"},
+		Env: map[string]string{"VERIF_POINTS": "memcache.get=sleep(2300ms,100.0%)"}})
+	if err != nil {
+		c.startFailure(err, "c08-stall")
+		return
+	}
+	defer b.Stop()
+	h := &chHist{}
+	n := c.N(6, 30)
+	var wg sync.WaitGroup
+	for i := 0; i < n; i++ {
+		wg.Add(1)
+		go func(i int) {
+			defer wg.Done()
+			time.Sleep(time.Duration(i*170) * time.Millisecond) // spread over the phases of the second
+			name := fmt.Sprintf("ok-n2-ttl300-stall%dx%d.pipe.test.", i, c.Seed)
+			first := h.query(b, "tcp", "", "", name, dns.TypeA, dns.ClassINET, "store", "")
+			if first.Err != "" || first.Serial == 0 {
+				return
+			}
+			time.Sleep(time.Duration(300+i*130) * time.Millisecond)
+			second := h.query(b, []string{"udp", "tcp"}[i%2], "", "", name, dns.TypeA, dns.ClassINET, "stalled-hit", "")
+			c.Ev.Eval(1)
+			if second.Err != "" || second.Serial != first.Serial {
+				return // not a hit
+			}
+			took := time.Duration(second.TRecv - second.TSend)
+			if took < 2300*time.Millisecond {
+				c.Inconclusive(fmt.Sprintf("stall: the hit came back after %v, the delay point did not fire", took))
+				return
+			}
+			dirs := fakeup.ParseDirectives(strings.SplitN(name, ".", 2)[0])
+			exp := fakeup.BuildReply(strings.ToLower(name), dns.TypeA, dns.ClassINET, "pipe", first.Serial, dirs)
+			L := (second.TSend + int64(2300*time.Millisecond) - first.TRecv - int64(50*time.Millisecond)) / int64(time.Second)
+			if e := c08CheckAgeing(exp, second.Msg, uint32(max(L, 0))); e != "" {
+				c.Violation("ttl-too-large:stalled-lookup", fmt.Sprintf("%s: the cache hit was held up for 2.3 s inside the lookup (delay point) and answered %v after the query left; at least %d whole seconds lie between the arrival of the first answer and the moment this one was put together: %s", name, took, L, e),
+					map[string]any{"fn": "c08Stall", "name": name, "elapsed_lower_bound_s": L})
+				return
+			}
+			c.Ev.Distinct("stalled-hit", L)
+			c.Ev.Count("stalled_hits_checked_for_ageing", 1)
+		}(i)
+	}
+	wg.Wait()
+}
